@@ -7,7 +7,7 @@
     universally quantified functions; their encoders only have to satisfy the round-trip hypotheses
     written in each statement (instantiated at the end of the file). *)
 From Coq Require Import List ZArith String Lia.
-From Thunder Require Import Lib.Json Args.Model Args.Spec Args.Proofs Args.ProofsReject Args.ProofsInst.
+From Thunder Require Import Lib.Json Args.Model Args.Spec Args.Proofs Args.ProofsReject Args.ProofsInst Gen.ArgParsers Args.Table.
 Import ListNotations.
 Local Open Scope Z_scope.
 
@@ -155,6 +155,21 @@ Theorem no_resolver_before_args :
        exists args, prepare b64 tdec xdec rq = Ok args /\ nth_error args i = Some a).
 Proof. exact Proofs.no_resolver_before_args. Qed.
 Print Assumptions no_resolver_before_args.
+
+(** The scalar cases of the model against the source's scalarArgParsers table ([arg_parsers], regenerated
+    from input.go by tools/gentables on every run): the table holds exactly one entry per scalar type
+    constructor of the model, with the JSON type the model's parser accepts, the conversion the model
+    applies and the decoder it calls; and the model's integer conversion for each kind is Go's conversion
+    to the type named in that entry followed by Convert to the destination kind (so the uint64 entry
+    going through int64 is part of the statement). *)
+Theorem scalar_table_covered :
+  (forall e, In e arg_parsers <-> In e (map entry_of scalar_tys)) /\
+  NoDup (map e_type arg_parsers) /\
+  (forall t, table_scalar t -> In t scalar_tys) /\
+  (forall k t, exists T, table_conv (go_name k) arg_parsers = Some T /\
+                         option_map (wrap (width k) (signed k)) (go_float_conv T t) = Some (conv k t)).
+Proof. exact Table.scalar_table_covered. Qed.
+Print Assumptions scalar_table_covered.
 
 (** * The hypotheses are satisfiable by the decoders the correspondence check runs *)
 Theorem base64_roundtrip : forall b, bytes_ok b -> b64_dec (b64_enc b) = Some b.
